@@ -528,8 +528,10 @@ def check_C08(tier):
 def check_C10(tier):
     caps = caps_for(tier)
     scns = (sc.add_stream_scn("C10", caps=caps) + sc.add_stream_scn("C10", caps=caps[:2], fut=True) +
-            sc.add_stream_scn("C10", caps=caps[:2], shared_parent=True))
-    return generic_check("C10", tier, ["C01C02", "C03", "C06", "C01C06", "C01C07"], scns, plans_for(tier), RULE_CONC + RULE_IMPL,
+            sc.add_stream_scn("C10", caps=caps[:2], shared_parent=True) + sc.many_parked("C10p", counts=(2, 3)) +
+            sc.added_stream_waits("C10w", caps=caps[:2]))
+    # a futures stream created by add_stream that is never woken does not "deliver every value from there on"
+    return generic_check("C10", tier, ["C01C02", "C03", "C06", "C01C06", "C01C07", "C14", "C07C14"], scns, plans_for(tier), RULE_CONC + RULE_IMPL,
                          models=[impl_model_stage(["addsole", "adddouble", "addshared"], expect_fail=("addshared_1",))])
 
 
